@@ -1151,9 +1151,11 @@ def check_C17(ctx):
 
 def commit_design(ctx):
     """Commit.tla: the durability protocol, every crash subset, plus its negative self-tests"""
-    tlc_check(ctx, "Commit", "MC_Commit.cfg", workers=6, timeout=1200)
+    # (MC_Commit_rec: a second crash, i.e. during the recovery itself)
+    tlc_check(ctx, "Commit", tiered(ctx, "MC_Commit.cfg", "MC_Commit_rec.cfg"), workers=6, timeout=1800)
     if ctx.tier == "thorough":
         tlc_check(ctx, "Commit", "MC_Commit_torn.cfg", workers=8, timeout=3600)
+        tlc_expect_violation(ctx, "Commit", "MC_Commit_norepsync.cfg", "RecoveryOk", workers=8, timeout=1800)
     tlc_expect_violation(ctx, "Commit", "MC_Commit_nosync.cfg", "RecoveryOk", workers=4)
     tlc_expect_violation(ctx, "Commit", "MC_Commit_nonewer.cfg", "RecoveryOk", workers=4)
     # a persistent savepoint over non-durable commits: lost without the pre-flush, with or without two-phase commit
@@ -1162,6 +1164,44 @@ def commit_design(ctx):
     # opening a file, step by step, over every header an interrupted run can leave (the decisions Commit.tla's Crash uses)
     tlc_check(ctx, "Recover", "MC_Recover.cfg", workers=4, timeout=600)
     tlc_expect_violation(ctx, "Recover", "MC_Recover_nonewer.cfg", "Newest", workers=2)
+
+
+def run_recio(ctx, runs, steps, every):
+    """The recovery as the backend sees it: every backend call of opening crash images must be a behaviour of the
+    R* actions of Commit.tla (CommitTrace.tla), from the header the image held to the header in memory at the end"""
+    trace = os.path.join(ctx.work, "recio.ndjson")
+    p = sh([bin_path("recio"), "--seed", str(ctx.seed), "--runs", str(runs), "--steps", str(steps), "--every", str(every), "--out", trace], timeout=3600)
+    stats = json.loads(p.stdout.strip().splitlines()[-1])
+    log(f"recio: {stats['opens']} crash images opened on a recording backend, I/O shapes {stats['io_shapes']}")
+    if len(stats["io_shapes"]) < 2 or stats["opens"] < 200:
+        raise ToolError(f"vacuity: recovery I/O traces cover too little: {stats}")
+    ok, info = tlc_trace_generic(ctx, "CommitTrace", trace, timeout=3600)
+    ctx.cov["evaluations"] += stats["lines"]
+    ctx.cov["distinct_nontrivial"] += stats["opens"]
+    ctx.notes["recovery_io"] = stats
+    lines = [json.loads(l) for l in open(trace)]
+    if not ok:
+        rec = info["record"]
+        upto = lines[: info["line"]]
+        start = max(i for i, l in enumerate(upto) if l["e"] == "rreset")
+        what = (f"recovery protocol: opening a crash image with header {json.dumps(upto[start]['disk'])} (trees verify: {upto[start]['serv']}) made the backend calls "
+                f"{json.dumps([{k: v for k, v in l.items() if k not in ('run', 'i', 'len')} for l in upto[start + 1:]])[:700]}; the last one is not a step Commit.tla allows")
+        sig = "recio:" + hashlib.sha256(json.dumps([[l["e"], l.get("h"), l.get("disk")] for l in upto[start:]], sort_keys=True).encode()).hexdigest()[:16]
+        payload = {"property": ctx.prop, "kind": "commitio", "seed": ctx.seed, "tier": ctx.tier, "rejected": rec, "lines": upto[start:], "what": what, "signature": sig}
+        raise Violation(ctx.prop, save_replay(ctx.prop, payload), what, sig)
+    ctx.cov["traces_validated_against_impl"] += stats["runs"]
+    # the binding has teeth: without the flush between the repair commit's slot write and its swap the trace is rejected
+    idx = next(i for i, l in enumerate(lines) if l["e"] == "rreset" and [x["e"] for x in lines[i + 1:i + 12]] == ["hdr", "sync"] * 5 + ["ropen"])
+    bad = lines[:idx + 6] + lines[idx + 7:]
+    btrace = trace + ".mut"
+    with open(btrace, "w") as f:
+        for r in bad:
+            f.write(json.dumps(r) + "\n")
+    ok2, info2 = tlc_trace_generic(ctx, "CommitTrace", btrace)
+    if ok2 or info2["line"] != idx + 7:
+        raise ToolError("self-test failed: CommitTrace accepts a recovery whose repair commit is not flushed before the swap")
+    ctx.notes.setdefault("binding_selftests", []).append("CommitTrace rejects a recovery trace with the flush before the repair commit's swap removed")
+    return stats
 
 
 def run_commitio(ctx, runs, steps, profile="crash"):
@@ -1197,6 +1237,7 @@ def check_C01(ctx):
     if st0["commits"] < 100:
         raise ToolError(f"vacuity: too few commits in the protocol traces: {st0}")
     run_opencases(ctx, tiered(ctx, (512,), (512, 1024, 4096)))
+    run_recio(ctx, tiered(ctx, 4, 24), tiered(ctx, 80, 200), tiered(ctx, 5, 7))
     runs, steps = tiered(ctx, (12, 150), (60, 250))
     st = run_crash(ctx, runs, steps, recover_every=tiered(ctx, 3, 4))
     if st["probes_inside_commit"] < 10:
